@@ -23,6 +23,7 @@ const (
 	errorInvalidMessage          = "invalid message (%s)"
 	errorInvalidBulkStringLength = "invalid bulk string length (%d != %d)"
 	errorInvalidBulkStringDelim  = "invalid bulk string ending delimiter %s"
+	errorInvalidArrayLength      = "invalid array length (%d != %d)"
 )
 
 // ErrEOM is the error returned by Array::Next() when no more message is available.
